@@ -325,6 +325,8 @@ func RulePS1(c *Ctx) {
 			}
 			if cf.MustAt(cs.Call, gen, nil, nil) {
 				sc.Holds(key, c.P.Pos(cs.Call.Pos()), "runs only after every Path schema passed the flat-object check")
+			} else if c.ps1CallersDominated(cs, checkAll, 0) {
+				sc.Holds(key, c.P.Pos(cs.Call.Pos()), "called from a function every call of which comes after the flat-object check of all Path schemas")
 			} else {
 				sc.Violation(key, c.P.Pos(cs.Call.Pos()), self.Name()+" reads the children of Path schemas but is not dominated by a successful pass of the Path schema check: a Path body that is not a flat object is read as if it were")
 			}
@@ -367,7 +369,7 @@ func RulePS1(c *Ctx) {
 
 // RuleDN1: descriptions reach the catalog only through the normaliser.
 func RuleDN1(c *Ctx) {
-	sc := c.Run.Begin("DN1", "the catalog's description setters are reached only from the Description handler, and there only after the normaliser ran (its error returns) and the result was tested for emptiness; the stored text is the normaliser's result", 4)
+	sc := c.Run.Begin("DN1", "the catalog's description setters are reached only from the Description handler, and there only after the normaliser ran (its error returns) and the result was tested for emptiness; the stored text is the normaliser's result", 2)
 	defer sc.End()
 	pk := c.P.Pkg("core")
 	cat := c.Named("catalog", "Catalog")
@@ -1525,7 +1527,7 @@ func labelTarget(body *ast.BlockStmt, name string) (ast.Stmt, bool) {
 // RuleLC1: loops that bind path parameters visit every element.
 func RuleLC1(files ...string) func(c *Ctx) {
 	return func(c *Ctx) {
-		sc := c.Run.Begin("LC1", "in the path-parameter code every loop that accumulates (appends to an outer slice, fills an outer map, or propagates a per-element error) runs over all elements: it is left early only with an error or under a condition that does not look at the current element, never by a break or a success return that depends on the element at hand", 6)
+		sc := c.Run.Begin("LC1", "in the path-parameter code every loop that accumulates (appends to an outer slice, fills an outer map, or propagates a per-element error) runs over all elements: it is left early only with an error or under a condition that does not look at the current element, never by a break or a success return that depends on the element at hand", 2)
 		defer sc.End()
 		inScope := map[string]bool{}
 		for _, f := range files {
@@ -1589,7 +1591,7 @@ func RuleLC1(files ...string) func(c *Ctx) {
 // declaration ("has no allOf at the root, skip") leaves the declaration to be expanded,
 // or not, as a side effect of whatever else refers to it.
 func RulePA1(c *Ctx) {
-	sc := c.Run.Begin("PA1", "every top-level call of the allOf expander (one per kind of declared schema) is reached under no condition other than nil tests, type assertions and the notation test, and lies in a function the allOf stage calls unconditionally", 8)
+	sc := c.Run.Begin("PA1", "every top-level call of the allOf expander (one per kind of declared schema) is reached under no condition other than nil tests, type assertions and the notation test, and lies in a function the allOf stage calls unconditionally", 2)
 	defer sc.End()
 	pk := c.P.Pkg("core")
 	exp := c.allOfExpander()
@@ -2014,7 +2016,7 @@ func (c *Ctx) allOfExpander() *types.Func {
 // order the quoted spelling of a value ("[@cat]") is classified differently from the bare
 // one ([@cat]).
 func RuleQ2(c *Ctx) {
-	sc := c.Run.Begin("Q2", "Unquote is applied before any other end-sensitive transformation of a parameter value: its receiver is never the result of another Bytes-to-Bytes method (whitespace trims excepted)", 3)
+	sc := c.Run.Begin("Q2", "Unquote is applied before any other end-sensitive transformation of a parameter value: its receiver is never the result of another Bytes-to-Bytes method (whitespace trims excepted)", 2)
 	defer sc.End()
 	n := 0
 	perFn := map[*ast.FuncDecl]int{}
@@ -2149,4 +2151,44 @@ func RuleFC1(c *Ctx) {
 	if n == 0 {
 		sc.Undecided("sites", "-", "no switch over a string-typed kind in an error-returning function")
 	}
+}
+
+// ps1CallersDominated: the call site lies in a function all of whose own call sites are
+// dominated by a successful check-all pass (up to three levels).
+func (c *Ctx) ps1CallersDominated(cs callSite, checkAll map[*types.Func]bool, depth int) bool {
+	caller := declObj(cs)
+	if caller == nil || depth > 2 || c.usedAsValue(caller) {
+		return false
+	}
+	sites := c.callSitesOf(caller)
+	if len(sites) == 0 {
+		return false
+	}
+	for _, up := range sites {
+		cf := c.CFG(up.Pk, up.Body)
+		info := up.Pk.TypesInfo
+		gen := func(fa cfgx.Fact) bool {
+			be, ok := ast.Unparen(fa.Expr).(*ast.BinaryExpr)
+			if !ok {
+				return false
+			}
+			id, ok := ast.Unparen(be.X).(*ast.Ident)
+			if !ok {
+				return false
+			}
+			def, ok := ast.Unparen(cf.Resolve(id)).(*ast.CallExpr)
+			if !ok {
+				return false
+			}
+			g := Callee(info, def)
+			if g == nil || !checkAll[g] {
+				return false
+			}
+			return (be.Op == token.NEQ && !fa.Truth) || (be.Op == token.EQL && fa.Truth)
+		}
+		if !cf.MustAt(up.Call, gen, nil, nil) && !c.ps1CallersDominated(up, checkAll, depth+1) {
+			return false
+		}
+	}
+	return true
 }
